@@ -268,6 +268,8 @@ def _neighbour_rule(r3, idx, fg) -> None:
                 m_ = pmatch(n.test, "np.all(X_ % M_ == 0)", {"X_", "M_"}) or pmatch(n.test, "not np.any(X_ % M_)", {"X_", "M_"}) or pmatch(n.test, "(X_ % M_ == 0).all()", {"X_", "M_"})
                 if m_ and m_[0][0] is n.test:
                     tests.append((g, n, m_[0][1]))
+    if not tests and labels is None and _vector_idiom(r3, idx, fg):
+        return
     if not tests:
         if labels is not None:
             r3.idiom("label search: k-points labelled by a flattened mesh index, neighbours looked up by label")
@@ -358,6 +360,93 @@ def _neighbour_rule(r3, idx, fg) -> None:
     else:
         r3.check(False, "neighbour and G recorded under the test", g, tst,
                  f"under the congruence test the code does {body_txt}: neighbour index and lattice shift g // mesh are not recorded together")
+
+
+def _vector_idiom(r3, idx, fg) -> bool:
+    """Vectorised neighbour search: D[b, k'] = (k + b_b) − k' for all b, k' at once; match mask = all(D % mesh == 0, axis=-1);
+    neighbour = first True per row (argmax), G = D[b, neighbour] // mesh; a row without a match raises.  False if not this form."""
+    S = Sem(idx, fg)
+    mp = fg.params[3] if len(fg.params) > 3 else "mp_grid"
+    masks = []
+    for st in stmts(fg.node):
+        if isinstance(st, ast.Assign) and len(st.targets) == 1 and isinstance(st.targets[0], ast.Name):
+            m_ = pmatch(st.value, "np.all(X_ % M_ == 0, axis=AX_)", {"X_", "M_", "AX_"}) or pmatch(st.value, "(X_ % M_ == 0).all(axis=AX_)", {"X_", "M_", "AX_"})
+            if m_ and m_[0][0] is st.value:
+                masks.append((st, m_[0][1]))
+    if len(masks) != 1:
+        return False
+    mst, b = masks[0]
+    mask = mst.targets[0].id
+    at = S.cfg.node(mst)
+    r3.idiom("vectorised search: difference array over (b, k'), match mask, first match per b by argmax")
+    xs = ast.parse(b["X_"], mode="eval").body
+    xres = S.resolve(xs, at)
+    mres = S.rnorm(ast.parse(b["M_"], mode="eval").body, at)
+    bb = None
+    for pat in ("(KL_[K1_] + BG_)[:, None, :] - KL_[None, :, :]", "(BG_ + KL_[K1_])[:, None, :] - KL_[None, :, :]",
+                "(KL_[K1_] + BG_)[:, np.newaxis, :] - KL_[np.newaxis, :, :]", "(KL_[K1_] + BG_)[:, None] - KL_[None]",
+                "(KL_[K1_] + BG_)[:, None, :] - KL_[None]", "(KL_[K1_] + BG_)[:, None] - KL_"):
+        m_ = pmatch(xres, pat, {"KL_", "K1_", "BG_"})
+        if m_ and m_[0][0] is xres:
+            bb = m_[0][1]
+            break
+    okkl = bb is not None and any(bb["KL_"] == f"np.rint({fg.params[1]} * {g_}).astype(int)" for g_ in (mp, f"{mp}[None, :]", f"np.array({mp}, dtype=int)[None, :]",
+                                                                                                    f"np.array({mp})[None, :]", f"np.array({mp}, dtype=int)", f"np.array({mp})"))
+    okbg = bb is not None and bb["BG_"] == fg.params[2]
+    okm = mres in (mp, f"np.array({mp}, dtype=int)", f"np.array({mp})")
+    okax = b["AX_"].replace(" ", "") in ("2", "-1")
+    r3.check(bb is not None and okkl and okbg and okm and okax,
+             "the mask is ((k + b) − k') ≡ 0 (mod mesh) in all three components, for every (b, k') on the integer mesh coordinates rint(k·mesh)", fg, mst,
+             f"the match mask is computed from `{norm(xres)[-120:]}` modulo `{mres}` over axis {b['AX_']}: not (k + b_b) − k' for all b (rows) and k' (columns) "
+             f"in integer mesh coordinates modulo the mesh")
+    if bb is None:
+        return True
+    k1 = bb["K1_"]
+    firsts = []
+    for st in stmts(fg.node):
+        if isinstance(st, ast.Assign) and len(st.targets) == 1 and isinstance(st.targets[0], ast.Name):
+            m_ = pmatch(st.value, f"{mask}.argmax(axis=AX_)", {"AX_"}) or pmatch(st.value, f"np.argmax({mask}, axis=AX_)", {"AX_"})
+            if m_ and m_[0][0] is st.value:
+                firsts.append((st, m_[0][1]["AX_"].replace(" ", "")))
+    if not r3.expect(len(firsts) == 1, "first match located", fg, mst, f"find_G_and_neighbours: `{mask}.argmax(axis=1)` (first matching k' per b) not found exactly once"):
+        return True
+    fst, fax = firsts[0]
+    first = fst.targets[0].id
+    r3.check(fax in ("1", "-1"), "the first match is taken along the k' axis of the mask", fg, fst,
+             f"`{norm1(fst)}` takes the arg-max over axis {fax} of the (b, k') mask: that is not the neighbour of each b")
+    xname = b["X_"] if b["X_"].isidentifier() else None
+    nb_ok = gg_ok = False
+    where = fst
+    for st in stmts(fg.node):
+        if not (isinstance(st, ast.Assign) and len(st.targets) == 1 and isinstance(st.targets[0], ast.Subscript)):
+            continue
+        tg = st.targets[0]
+        base = tg.value if (isinstance(tg.slice, ast.Slice) and tg.slice.lower is None and tg.slice.upper is None) or norm(tg.slice) == "..." else tg
+        if not (isinstance(base, ast.Subscript) and isinstance(base.value, ast.Name)):
+            continue
+        key = S.rnorm(base.slice, S.cfg.node(st))
+        if norm(st.value) == first:
+            nb_ok = key == k1
+            where = st
+        else:
+            for xn in ([xname] if xname else []) + [b["X_"]]:
+                m_ = pmatch(st.value, f"{xn}[IDX_, {first}] // M_", {"IDX_", "M_"})
+                if m_ and m_[0][0] is st.value:
+                    idxr = S.rnorm(ast.parse(m_[0][1]["IDX_"], mode="eval").body, S.cfg.node(st))
+                    gg_ok = key == k1 and idxr.startswith("np.arange(") and S.rnorm(ast.parse(m_[0][1]["M_"], mode="eval").body, S.cfg.node(st)) == mres
+    r3.check(nb_ok and gg_ok, "neighbour index = first match and G = D[b, first match] // mesh are stored for the k-point the differences were built for", fg, where,
+             "the first match per b and the lattice shift D[b, match] // mesh are not both stored under the k-point the difference array was built for "
+             "(k + b = k' + G is violated for some entries)")
+    # a b-vector without any match must raise before the stores
+    raises = [i_ for i_ in stmts(fg.node) if isinstance(i_, ast.If) and any(isinstance(x, ast.Raise) for x in i_.body)]
+    ok_raise = False
+    for i_ in raises:
+        sl, _, _ = S.du.backward_slice(i_.test, S.cfg.node(i_))
+        if any(isinstance(n, ast.Name) and n.id == mask for e in list(sl) + [i_.test] for n in ast.walk(e)) and i_.lineno < where.lineno:
+            ok_raise = True
+    r3.check(ok_raise, "a missing neighbour raises", fg, where, "a b-vector with no matching k-point no longer raises (argmax of an all-False row is 0: "
+             "k-point 0 would silently be stored as neighbour)")
+    return True
 
 
 def _search_box(fb, FS=None):
